@@ -134,6 +134,12 @@ func c18Expand(c *C18Case) (S, D []byte, cuts []int) {
 			case 2:
 				pos = len(D) - 1
 			}
+			if r.Intn(3) == 0 {
+				// the weak hash of the block stays what the signature says; only the strong hash differs
+				if _, ok := wvlib.WeakPreservingTweak(D, pos); ok {
+					continue
+				}
+			}
 			D[pos] ^= byte(1 + r.Intn(255))
 		}
 		if c.Shape == "periodic" && r.Bool() {
